@@ -133,6 +133,8 @@ def build_ann(s):
         else:
             c = {"Duck": Duck, "Duck2": Duck2, "Any": typing.Any, "Fault": FaultDuck}[cls]
         return cat[c, s[1]]
+    if k == "narr":
+        return jaxtyping.Float[jaxtyping.Float[Duck, s[2]], s[1]]
     if k == "pytree":
         from jaxtyping import PyTree
 
